@@ -96,6 +96,8 @@ class CallMixin:
         return S_val(self.fresh_term(st, "opaque", V))
 
     def external_call(self, q: str, node, st) -> Sym:
+        if q == "itertools.zip_longest":
+            return self.zip_longest(node, st)
         args, kwargs = self.eval_args(node, st)
         c = self.reg.contracts.get(q)
         if c is not None:
@@ -162,6 +164,10 @@ class CallMixin:
                 return z3.BoolVal(cls.py in ("type", "object"))
             t = box(x, st)
             return sub(typeof(t), CLASSES.const(cls.py))
+        if cls.kind == "pyobj" and cls.py[0] == "external":
+            CLASSES.add(cls.py[1], ["object"]) if cls.py[1] not in CLASSES.consts else None
+            self.note_class(cls.py[1])
+            return sub(typeof(box(x, st)), CLASSES.const(cls.py[1]))
         if cls.kind == "seq":
             raise Unsupported("isinstance against symbolic tuple")
         if cls.kind == "val":
@@ -186,6 +192,9 @@ class CallMixin:
         x = self.eval(node.args[0], st)
         a = node.args[1]
         if isinstance(a, ast.Constant) and isinstance(a.value, str) and len(node.args) == 2:
+            return self.getattr_sym(x, a.value, st, node)
+        if isinstance(a, ast.Constant) and isinstance(a.value, str) and a.value in getattr(self.contract, "present_attrs", ()):
+            # getattr(x, "name", default) for an attribute declared always present by the contract
             return self.getattr_sym(x, a.value, st, node)
         args = [box(self.eval(n, st), st) for n in node.args]
         return S_val(uf(f"py_getattr{len(args)}", *([V] * len(args)), V)(*args))
@@ -233,6 +242,24 @@ class CallMixin:
             n = z3.If(v.length < n, v.length, n)
         def get(k, st_):
             return Sym("pyobj", None, None, ("pytuple", [v.get(k, st_) for v in views]))
+        return Sym("pyobj", None, None, ("iterview", IterView(n, get, None)))
+
+    def zip_longest(self, node, st):
+        views = [self.iter_view(self.eval(a, st), st, node) for a in node.args]
+        fill = S_none()
+        for kw in node.keywords:
+            if kw.arg == "fillvalue":
+                fill = self.eval(kw.value, st)
+        n = views[0].length
+        for v in views[1:]:
+            n = z3.If(v.length > n, v.length, n)
+
+        def get(k, st_):
+            items = []
+            for v in views:
+                e = v.get(k, st_)
+                items.append(self.ite(k < v.length, e, fill, st_))
+            return Sym("pyobj", None, None, ("pytuple", items))
         return Sym("pyobj", None, None, ("iterview", IterView(n, get, None)))
 
     def b_range(self, node, st):
@@ -425,7 +452,7 @@ class CallMixin:
                 c = self.reg.methods.get(meth)
             if c is None:
                 # a method name with exactly one implementation under contract: static dispatch by name
-                cands = [cc for q, cc in self.reg.contracts.items() if q.endswith("." + meth) and q.split(".")[-2][:1].isupper()]
+                cands = [cc for q, cc in self.reg.contracts.items() if q.endswith("." + meth) and q.split(".")[-2][:1].isupper() and getattr(cc, "unique_dispatch", False)]
                 if len(cands) == 1:
                     c = cands[0]
             if c is not None:
